@@ -335,8 +335,8 @@ class Gen:
                 return ("name", r.choice(vs))
             return self.iconst()
         c = r.random()
-        if c < 0.12 and self.callable:
-            f = r.choice(self.callable)
+        if c < 0.12 and [f for f in self.callable if f["ret"] == "int"]:
+            f = r.choice([f for f in self.callable if f["ret"] == "int"])
             self.features.add("call")
             return ("call", f["name"], [self.expr(t, d - 1) for _, t in f["params"]])
         if c < 0.18 and self.ext:
@@ -458,7 +458,7 @@ class Gen:
             if r.random() < 0.12 and self.rett:
                 body = body + [("return", self.expr(self.rett, 1))]
                 self.features.add("early-return")
-            if self.loop_depth and r.random() < 0.3:
+            if self.loop_depth and r.random() < 0.45:
                 body = body + [(r.choice(["break", "continue"]),)]
                 self.features.add("break/continue in " + self.loop_kind[-1])
             if r.random() < 0.1:
@@ -827,7 +827,9 @@ class Watch:
             blk = self.builder.block
             r = me.saved[2](self, st)
             jmp = blk.instructions[-1]
-            me.records.append((stack[-1][0] if stack else None, stack[-1][1] if stack else None, blk, jmp))
+            tgt = jmp.target if hasattr(jmp, "target") else None       # read now: deleting an unreachable block clears it
+            me.records.append((stack[-1][0] if stack else None, stack[-1][1] if stack else None, blk, jmp, tgt,
+                               stack[-1][2] if stack else None))
             return r
         C.gen_for, C.gen_while, C.gen_continue = gen_for, gen_while, gen_continue
         return self
@@ -840,10 +842,11 @@ def continue_failures(records):
     """a `continue` of a for-loop must jump to a block that adds 1 to the loop phi and feeds it back"""
     from ppci import ir
     out = []
-    for kind, node, blk, jmp in records:
-        if kind != "for" or not isinstance(jmp, ir.Jump):
+    for kind, node, blk, jmp, t, fn in records:
+        if kind != "for" or not isinstance(jmp, ir.Jump) or t is None:
             continue
-        t = jmp.target
+        if fn is None or blk not in fn.blocks:
+            continue                                # the `continue` sits in dead code that delete_unreachable removed
         ok = False
         for i in t.instructions:
             if isinstance(i, ir.Binop) and i.operation == "+" and isinstance(i.a, ir.Phi) and isinstance(i.b, ir.Const) and i.b.value == 1:
@@ -875,7 +878,35 @@ def arg_vectors(rng, f, n):
     return out
 
 
-def run_programs(ctx, mods, spec_budget):
+class Batch:
+    """all requests of one run go to each Lean driver in ONE process (start-up dominates under load)"""
+
+    def __init__(self):
+        self.parts = {"C36": [], "IR": []}
+
+    def add(self, driver, lines, handler):
+        if lines:
+            self.parts[driver].append((list(lines), handler))
+
+    def flush(self, ctx):
+        import concurrent.futures
+
+        def one(name):
+            parts = self.parts[name]
+            lines = [l for ls, _ in parts for l in ls]
+            return ctx.driver(name, lines) if lines else []
+        with concurrent.futures.ThreadPoolExecutor(2) as ex:
+            futs = {n: ex.submit(one, n) for n in self.parts}
+            reps = {n: f.result() for n, f in futs.items()}
+        for name, parts in self.parts.items():
+            k = 0
+            for ls, handler in parts:
+                handler(reps[name][k:k + len(ls)])
+                k += len(ls)
+        self.parts = {"C36": [], "IR": []}
+
+
+def run_programs(ctx, mods, spec_budget, batch):
     """compile, execute (ir2py + Spec.IR), compare with CPython; structural checks; model correspondence"""
     from ppci import ir
     from . import irser, irrun
@@ -967,8 +998,7 @@ def run_programs(ctx, mods, spec_budget):
         if len(ctx.samples) < 3:
             ctx.sample({"source": src})
     # ---- Spec.IR ---------------------------------------------------------------------------------------
-    if len(ir_lines) > 1:
-        rep = ctx.driver("IR", ir_lines)
+    def on_ir(rep):
         for line, meta, r in zip(ir_lines, ir_meta, rep):
             if meta is None:
                 continue
@@ -990,9 +1020,11 @@ def run_programs(ctx, mods, spec_budget):
                     ctx.count("spec_out_of_fuel")
                 else:
                     ctx.fail("program:undefined-behaviour", f"{case['function']}{tuple(case['args'])}: CPython {want}, Spec.IR {r}", case, got=r, want=want)
+    if len(ir_lines) > 1:
+        batch.add("IR", ir_lines, on_ir)
+
     # ---- the model ----------------------------------------------------------------------------------------
-    if gen_lines:
-        rep = ctx.driver("C36", gen_lines)
+    def on_gen(rep):
         for line, (src, fname, real), r in zip(gen_lines, gen_meta, rep):
             ctx.count("eval_model_function")
             if r.startswith("ok "):
@@ -1001,6 +1033,7 @@ def run_programs(ctx, mods, spec_budget):
                     ctx.disagree("genFunction", {"source": src, "function": fname, "request": line}, real, mtxt)
             else:
                 ctx.disagree("genFunction", {"source": src, "function": fname, "request": line}, real, r)
+    batch.add("C36", gen_lines, on_gen)
 
 
 # ---- operators ----------------------------------------------------------------------------------------------
@@ -1008,8 +1041,10 @@ def operand_pairs(ctx):
     r = ctx.rng
     base = [0, 1, -1, 2, -2, 3, -3, 7, -7, 10, -10, 100, -100, (1 << 31) - 1, 1 << 31, -(1 << 31), (1 << 32) + 1, 1 << 53, (1 << 53) + 1,
             -(1 << 53) - 1, 1 << 62, -(1 << 62), I64_MAX, I64_MAX - 1, I64_MIN, I64_MIN + 1]
+    if not ctx.thorough:
+        base = [0, 1, -1, 2, -3, 7, -7, (1 << 31), -(1 << 53) - 1, 1 << 62, I64_MAX, I64_MIN]
     pairs = [(a, b) for a in base for b in base]
-    for _ in range(4000 if ctx.thorough else 400):
+    for _ in range(3000 if ctx.thorough else 120):
         ba, bb = r.choice([4, 8, 16, 32, 63]), r.choice([2, 4, 8, 16, 32, 63])
         pairs.append((r.randint(-(1 << ba), 1 << ba), r.randint(-(1 << bb), 1 << bb)))
     pairs = [(7, 2), (-7, 2), (7, -2), (-7, -2), (6, 3), (-6, 3), (0, 5), (0, -5)] + pairs
@@ -1026,11 +1061,19 @@ def py_apply(op, a, b):
         return "OverflowError"
 
 
-def check_operators(ctx):
+def check_operators(ctx, batch):
     from ppci import ir
     from ppci.common import CompilerError
     from . import irser, irrun
     pairs = operand_pairs(ctx)
+    nfail = {}
+
+    def fail(sig, what, case, **kw):
+        nfail[sig] = nfail.get(sig, 0) + 1
+        if nfail[sig] <= 5:                 # a handful of witnesses per failure class is enough
+            ctx.fail(sig, what, case, **kw)
+        else:
+            ctx.count("more_failures_" + sig)
     lines, meta = [], []
     ir_lines, ir_meta = ["config ptr 8"], [None]
     for op in ["Add", "Sub", "Mult", "FloorDiv", "Div", "Mod"]:
@@ -1060,41 +1103,44 @@ def check_operators(ctx):
                 bad = got.startswith("exception") or want != int(got)
                 if bad:
                     sig = "binop:Div:int-operands-truncating-division" if op == "Div" else f"binop:{op}:wrong-value"
-                    ctx.fail(sig, f"{a} {OPSYM[op]} {b}: CPython {want!r}, compiled code {got}", {"op": op, "a": a, "b": b}, got=got, want=repr(want))
+                    fail(sig, f"{a} {OPSYM[op]} {b}: CPython {want!r}, compiled code {got}", {"op": op, "a": a, "b": b}, got=got, want=repr(want))
                 if k < 60 or k % 23 == 0:
                     ir_lines.append(f"run f 100 {a} {b}"); ir_meta.append((op, a, b, want))
-    rep = ctx.driver("C36", lines)
-    for line, (kind, op, ab, val), r in zip(lines, meta, rep):
-        if kind == "rejected":
-            if not r.startswith("err "):
-                ctx.disagree("genArith", line, "rejected", r)
-        elif kind == "arith":
-            # correspondence: the model's code evaluated by Spec.IRArith vs the real code executed by ir2py
-            if r.startswith("ok ") and r != "ok undefined":
-                if val != r[3:]:
-                    ctx.disagree("genArith-value", line, val, r)
-            elif r.startswith("err"):
-                ctx.disagree("genArith", line, val, r)
-        else:
-            # validation of Spec.Py against CPython
-            if isinstance(val, str):
-                exp = "ok " + val
-            elif isinstance(val, float):
-                exp = f"ok quot {ab[0]} {ab[1]}"
+    def on_c36(rep):
+        for line, (kind, op, ab, val), r in zip(lines, meta, rep):
+            if kind == "rejected":
+                if not r.startswith("err "):
+                    ctx.disagree("genArith", line, "rejected", r)
+            elif kind == "arith":
+                # correspondence: the model's code evaluated by Spec.IRArith vs the real code executed by ir2py
+                if r.startswith("ok ") and r != "ok undefined":
+                    if val != r[3:]:
+                        ctx.disagree("genArith-value", line, val, r)
+                elif r.startswith("err"):
+                    ctx.disagree("genArith", line, val, r)
             else:
-                exp = f"ok int {val}"
-            if r != exp:
-                ctx.disagree("Spec.Py.binop", line, exp, r)
-    rep = ctx.driver("IR", ir_lines)
-    for line, meta_, r in zip(ir_lines, ir_meta, rep):
-        if meta_ is None:
-            continue
-        op, a, b, want = meta_
-        ctx.count("eval_operator_spec")
-        got = canon_reply(irrun.strip_steps(r)[3:]).split(" ")[0][4:] if r.startswith("ok ret=") else r
-        if not (r.startswith("ok ret=") and int(got) == want):
-            sig = "binop:Div:int-operands-truncating-division" if op == "Div" else f"binop:{op}:wrong-value"
-            ctx.fail(sig, f"{a} {OPSYM[op]} {b}: CPython {want!r}, Spec.IR {got}", {"op": op, "a": a, "b": b}, got=got, want=repr(want))
+                # validation of Spec.Py against CPython
+                if isinstance(val, str):
+                    exp = "ok " + val
+                elif isinstance(val, float):
+                    exp = f"ok quot {ab[0]} {ab[1]}"
+                else:
+                    exp = f"ok int {val}"
+                if r != exp:
+                    ctx.disagree("Spec.Py.binop", line, exp, r)
+
+    def on_ir(rep):
+        for line, meta_, r in zip(ir_lines, ir_meta, rep):
+            if meta_ is None:
+                continue
+            op, a, b, want = meta_
+            ctx.count("eval_operator_spec")
+            got = canon_reply(irrun.strip_steps(r)[3:]).split(" ")[0][4:] if r.startswith("ok ret=") else r
+            if not (r.startswith("ok ret=") and int(got) == want):
+                sig = "binop:Div:int-operands-truncating-division" if op == "Div" else f"binop:{op}:wrong-value"
+                fail(sig, f"{a} {OPSYM[op]} {b}: CPython {want!r}, Spec.IR {got}", {"op": op, "a": a, "b": b}, got=got, want=repr(want))
+    batch.add("C36", lines, on_c36)
+    batch.add("IR", ir_lines, on_ir)
     # float floor division: not an integer operation; it must not silently become a true division
     src = "def f(a: float, b: float) -> float:\n    return a // b\n"
     mod, exc = compile_real(src, False)
@@ -1118,7 +1164,7 @@ CONTEXTS = {
 }
 
 
-def check_comparisons(ctx):
+def check_comparisons(ctx, batch):
     from ppci import ir
     from . import irrun
     grid = [-3, -1, 0, 1, 2, 5, I64_MIN, I64_MAX] if ctx.thorough else [-2, -1, 0, 1, 3, I64_MIN, I64_MAX]
@@ -1149,28 +1195,33 @@ def check_comparisons(ctx):
             for b in grid:
                 lines.append(f"pycmp {op} {a} {b}"); meta.append(("spec", op, a, b))
                 lines.append(f"ircmp {op} {a} {b}"); meta.append(("model", op, a, b))
-    rep = ctx.driver("C36", lines)
-    for line, (kind, op, a, b), r in zip(lines, meta, rep):
-        want = "ok 1" if eval(f"{a} {CMPSYM[op]} {b}") else "ok 0"
-        if r != want:
-            ctx.disagree("Spec.Py.CmpOp.holds" if kind == "spec" else "cmpMap", line, want, r)
+    def on_c36(rep):
+        for line, (kind, op, a, b), r in zip(lines, meta, rep):
+            want = "ok 1" if eval(f"{a} {CMPSYM[op]} {b}") else "ok 0"
+            if r != want:
+                ctx.disagree("Spec.Py.CmpOp.holds" if kind == "spec" else "cmpMap", line, want, r)
+    batch.add("C36", lines, on_c36)
 
 
 # ---------------------------------------------------------------------------------------------
 def check(ctx):
-    check_operators(ctx)
-    check_comparisons(ctx)
+    batch = Batch()
+    check_operators(ctx, batch)
+    check_comparisons(ctx, batch)
     mods = corpus_modules()
-    n = 260 if ctx.thorough else 60
+    n = 260 if ctx.thorough else 50
     for i in range(n):
         mods.append(Gen(ctx.rng, i).module())
-    run_programs(ctx, mods, spec_budget=(900000 if ctx.thorough else 110000))
+    run_programs(ctx, mods, (900000 if ctx.thorough else 60000), batch)
+    batch.flush(ctx)
     ctx.extra_cov["exhaustive"] = False
 
 
 def replay(ctx, rp):
     case = rp.get("case") or {}
     if isinstance(case, dict) and case.get("module"):
-        run_programs(ctx, [case["module"]], spec_budget=100000)
+        batch = Batch()
+        run_programs(ctx, [case["module"]], 100000, batch)
+        batch.flush(ctx)
     else:
         check(ctx)
